@@ -15,7 +15,7 @@ RULE = (
     "recv/recv_into; async: real asyncio.StreamReader fed chunk by chunk on the virtual loop). Replies: bind_ack, bind_ack+auth, alter_context_resp, response "
     "(stub 0,1,100,1000,5000), fault. Schedules: all partitions into 1..3 chunks (every cut pair) for replies <= 200/400 bytes, all 1-2 chunk partitions plus all "
     "3-chunk partitions with a cut in the first 32 bytes for larger ones, all 2^15 compositions of the 16-byte header, byte-by-byte delivery, five exchanges of very different reply lengths on one connection (long, short, fault, medium, empty) with a cut at every header offset of each, and EOF after every "
-    "byte offset combined with every 1-2 chunk partition of the delivered prefix. Oracle: complete delivery => same outcome (PDU or exception) as unsegmented delivery; "
+    "byte offset combined with every 1-2 chunk partition of the delivered prefix; the truncation is ended by a clean FIN and (for the uncut prefix and cuts at 1 / 16) by a read error (timeout, connection reset); FIN delivered together with / one step behind the last segment of a complete reply. Oracle: complete delivery => same outcome (PDU or exception) as unsegmented delivery; "
     "EOF => an ordinary exception after <= 2 EOF reads, inside the step budget. state = (reply, api, cut set, eof offset) schedule; transition = one chunk/EOF delivery. "
     "Non-trivial = at least one cut or an EOF (the environment deviated from the default answer)."
 )
@@ -233,9 +233,12 @@ def judge_complete(acc, api, kind, cuts, base, got, label) -> None:
     acc.outcome(f"complete:{st}")
 
 
-def judge_eof(acc, api, kind, cuts, eof_at, got) -> None:
+FAULTS = {"timeout": lambda: TimeoutError("timed out"), "reset": lambda: ConnectionResetError(104, "Connection reset by peer")}
+
+
+def judge_eof(acc, api, kind, cuts, eof_at, got, fault: t.Optional[str] = None) -> None:
     st, v, eof_reads = got
-    case = ["eof", api, kind, list(cuts), eof_at]
+    case = ["eof", api, kind, list(cuts), eof_at] + ([fault] if fault else [])
     if st == "exc":
         if eof_reads > 2:
             acc.violate(f"eof.reads-after-eof.{api}", case, {"eof_reads": eof_reads}, size=eof_at)
@@ -354,6 +357,13 @@ def run_shard(shard, tier, seed, acc) -> None:
                 judge_eof(acc, api, kind, cuts, eof_at, got)
                 cnt += 1
                 acc.transitions += len(chunks)
+                if len(cuts) == 0 or cuts[0] in (1, 16):
+                    # the same truncation ended by a transport error instead of a clean FIN: a timeout / reset reported by the read
+                    for fname, mk in FAULTS.items():
+                        got = execute(api, kind, chunks[:-1] + [mk()], budgeted=True)
+                        judge_eof(acc, api, kind, cuts, eof_at, got, fault=fname)
+                        cnt += 1
+                        acc.transitions += len(chunks)
         acc.ev(cnt)
         acc.states += cnt
         acc.nt_counted(cnt)
@@ -374,8 +384,9 @@ def replay(case, seed, acc) -> None:
     acc.ev()
     if label == "eof":
         cuts, eof_at = case[3], case[4]
-        chunks = [c for c in split(reply[:eof_at], cuts) if c] + [None]
-        judge_eof(acc, api, kind, cuts, eof_at, execute(api, kind, chunks, budgeted=True))
+        fault = case[5] if len(case) > 5 else None
+        chunks = [c for c in split(reply[:eof_at], cuts) if c] + [FAULTS[fault]() if fault else None]
+        judge_eof(acc, api, kind, cuts, eof_at, execute(api, kind, chunks, budgeted=True), fault=fault)
     else:
         cuts = tuple(case[3]) if label != "bytes" else tuple(range(1, len(reply)))
         base = execute(api, kind, [reply])
